@@ -653,6 +653,8 @@ def run(ctx):
         "canonical dict, to_coo, reads (leg C); a history is non-trivial when some step leaves a stored element; distinct by content hash; thorough adds "
         "all histories of length <= 3 on (3,), <= 2 on (2,3), 1 on (2,2,2) over one representative int/slice key per behaviour class "
         "(parts in [-4,4] ∪ {None}) x values {fill,1,2} plus eight index-list/mask/empty-tuple ops")
+    import extra_ops  # operation tables closing the measured coverage gaps (tools/coverage_audit.py; coverage/API_COVERAGE.md)
+    extra_ops.run(ctx, PID)
 
 
 def replay(ctx, path):
